@@ -31,6 +31,7 @@
 #ifdef NO_CRC_CHECK
 #define VF_CHEAP_CRC
 #endif
+#define VF_LIGHT_INDEX
 #include "undo_pre.h"
 #include "lib/ext2fs/undo_io.c"
 #include "lib/ext2fs/io_manager.c"
